@@ -560,6 +560,10 @@ func (g *docgen) matrix() *dv {
 					su.set(fmt.Sprint("dim", k), vals())
 				}
 			}
+			// the anonymous dimension next to named ones (legal: a map setup with the key "")
+			if g.rng.Chance(12) {
+				su.set("", vals())
+			}
 			m.set("setup", su)
 		} else {
 			m.set("setup", vals())
@@ -578,6 +582,9 @@ func (g *docgen) matrix() *dv {
 				w := dMap()
 				for j := 1 + g.rng.Intn(2); j > 0; j-- {
 					w.set(fmt.Sprint("dim", j), sx.Pick(g.rng, []*dv{dStr("v"), dInt(7), dBool(true), g.str()}))
+				}
+				if g.rng.Chance(15) {
+					w.set("", sx.Pick(g.rng, []*dv{dStr("anon"), dInt(3), g.str()}))
 				}
 				a.set("with", g.maybeWrong(w, 10))
 			} else {
